@@ -352,7 +352,8 @@ pub fn cmd_gen(seed: u64, count: usize, out: &str) {
         ops.push(json!({"op": "merge", "d": 5, "srcs": srcs}));
         // pushes into the merged region
         ops.push(json!({"op": "push", "s": 5, "v": dominant, "n": 2}));
-        for _ in 0..rng.gen_range(3..12) {
+        // (the demotion scenario must not lose its region to a legitimate refusal: no risky pushes there)
+        for _ in 0..(if k % 5 == 2 { 0 } else { rng.gen_range(3..12) }) {
             let choice = rng.gen_range(0..8);
             let v: Vec<u8> = match choice {
                 0 => vec![],
